@@ -344,6 +344,9 @@ class Check:
             reported.add(key)
             path = os.path.join(REPLAYS, f"{self.pid}_{n}.json")
             json.dump({"property": self.pid, "key": key, "what": what, "replay": replay,
+                       "seed": self.seed, "tier": self.tier,
+                       "how_to_replay": f"VERIF_SEED={self.seed} ./check {self.pid} --tier {self.tier}  (deterministic: the same seed regenerates this input; "
+                                        f"the failing input is described under 'replay')",
                        "broken": self.broken, "disagreements": self.disagreements[:5]},
                       open(path, "w"), indent=1, default=str)
             lines.append(f"VIOLATION property={self.pid} replay={path}")
@@ -351,7 +354,7 @@ class Check:
             n += 1
         if not unknown_failures and (self.broken or self.disagreements):
             path = os.path.join(REPLAYS, f"{self.pid}_{n}.json")
-            json.dump({"property": self.pid, "key": "no-failing-input",
+            json.dump({"property": self.pid, "key": "no-failing-input", "seed": self.seed, "tier": self.tier,
                        "what": "a proof obligation or the model/implementation correspondence no longer checks; "
                                "the counter-example search found no input on which the property fails",
                        "broken": self.broken, "disagreements": self.disagreements[:20]},
